@@ -1,6 +1,7 @@
 package govdrv
 
 import (
+	"encoding/hex"
 	"fmt"
 	"os"
 	"path/filepath"
@@ -115,6 +116,7 @@ func runHistory(r *vf.Run, cfg Cfg, w *World, tag string, rng *vf.RNG, primary, 
 			line += " (" + short(res.Err, 160) + ")"
 		}
 		h.Lines = append(h.Lines, line)
+		h.LastTx = hex.EncodeToString(op.Tx.ToArray())
 		r.Count("op/" + op.Kind + "/" + outcome)
 		r.Count("variant/" + op.Variant + "/" + outcome)
 		r.Count("engine/" + engine + "/ops")
